@@ -181,4 +181,66 @@ theorem xrun_base (c : Cfg) (fileLen : Nat) (ops : List Op) :
   | nil => rfl
   | cons op ops ih => simp only [List.map_cons, List.foldl_cons, xstep]; exact ih _
 
+/-- **A call of the shared.rs layer is its cache-level call plus local wrapper code**: unless the wrapper
+refuses it before it reaches the cache, it is exactly `CC.step` on `v.under` (state and outcome), with the
+outcome post-processed (`Err(())`). The wrapper touches no shared state, so at lock granularity a view call
+has the atomic sections of its cache-level call. -/
+theorem vstep_reduces (c : Cfg) (st : St) (v : VOp) (hstart : v.startOk) :
+    vstep c st v =
+      if v.refused then (st, .err .discarded)
+      else ((step c st (v.under st.fileLen)).1, v.post (step c st (v.under st.fileLen)).2) := by
+  cases v with
+  | entire => simp [vstep, VOp.refused, VOp.under, VOp.post, step]
+  | wread o n => simp [vstep, VOp.refused, VOp.under, VOp.post, step]
+  | wuntil r d => simp [vstep, VOp.refused, VOp.under, VOp.post, step]
+  | vread base subs o n =>
+    simp only [VOp.startOk] at hstart
+    obtain ⟨v', hb, hv⟩ := build_ok (viewBase st.fileLen base) subs (by rw [viewBase_start]; exact hstart)
+    rw [viewBase_start] at hv
+    simp only [vstep, hb, hv, VOp.refused, VOp.under, VOp.post, step]
+    by_cases h : U64 ≤ viewStart base subs + o <;> simp [h]
+  | vuntil base subs r d =>
+    simp only [VOp.startOk] at hstart
+    obtain ⟨v', hb, hv⟩ := build_ok (viewBase st.fileLen base) subs (by rw [viewBase_start]; exact hstart)
+    rw [viewBase_start] at hv
+    simp only [vstep, hb, hv, VOp.refused, VOp.under, VOp.post, step]
+    by_cases h1 : r.hi < r.lo
+    · simp [h1]
+    by_cases h2 : U64 ≤ viewStart base subs + r.lo
+    · simp [h1, h2]
+    by_cases h3 : U64 ≤ viewStart base subs + r.hi <;> simp [h1, h2, h3]
+
+/-- the same on the specification side -/
+theorem vspec_reduces (F : List UInt8) (src : Nat → Nat → Option (List UInt8)) (hsz : F.length < U64) (v : VOp) :
+    vspec F v = if v.refused then .err .discarded else v.post (spec F src (v.under F.length)) := by
+  cases v with
+  | entire =>
+    simp only [vspec, VOp.refused, VOp.under, VOp.post, spec, specRead]
+    by_cases h0 : F.length = 0
+    · have : F = [] := List.eq_nil_of_length_eq_zero h0
+      subst this; simp
+    · have n1 : ¬ U64 ≤ 0 + F.length := by omega
+      have n2 : ¬ F.length < 0 + F.length := by omega
+      simp only [h0, n1, n2, if_false, slice_all]
+      simp
+  | wread o n => simp [vspec, VOp.refused, VOp.under, VOp.post, spec]
+  | wuntil r d => simp [vspec, VOp.refused, VOp.under, VOp.post, spec]
+  | vread base subs o n =>
+    simp only [vspec, VOp.refused, VOp.under, VOp.post, spec]
+    by_cases h : U64 ≤ viewStart base subs + o <;> simp [h]
+  | vuntil base subs r d =>
+    simp only [vspec, VOp.refused, VOp.under, VOp.post, spec, specUntil]
+    generalize viewStart base subs = s
+    by_cases h1 : r.hi < r.lo
+    · have : s + r.hi < s + r.lo := by omega
+      simp [h1, this, discardErr]
+    have n1 : ¬ s + r.hi < s + r.lo := by omega
+    by_cases h2 : U64 ≤ s + r.lo
+    · have : F.length < s + r.hi := by omega
+      simp [h1, h2, n1, this, discardErr]
+    by_cases h3 : U64 ≤ s + r.hi
+    · have : F.length < s + r.hi := by omega
+      simp [h1, h2, h3, n1, this, discardErr]
+    simp [h1, h2, h3]
+
 end CC
